@@ -18,13 +18,21 @@ The harness compares on the grid where real `float32` arithmetic is exact: SDF v
 namespace KV.SdfWave
 open KV.Sdf KV.Wave
 
-/-- `(df.iopaths(c, tlib) + df.interconnects(c, tlib))[d]` as the delay table of a WaveSim run, in thousandths -/
-def sdfDelay (pinLine : PinTable) (icLine : IcTable) (df : DelayFile) (d : Nat) : Nat → Bool → Bool → Int :=
-  fun l ip op => iopaths pinLine df d l ip op + interconnects icLine df d l ip op
+/-- `(df.iopaths(c, tlib) + ic)[d]` for an interconnect array `ic` already computed: the total part of the sum -/
+def sumDelay (pinLine : PinTable) (df : DelayFile) (ic : Arr) (d : Nat) : Nat → Bool → Bool → Int :=
+  fun l ip op => iopaths pinLine df d l ip op + ic d l ip op
 
-/-- the WaveSim configuration of a run with SDF delays: data set `d`, capacities `cap` (`c_caps`) -/
-def sdfCfg (pinLine : PinTable) (icLine : IcTable) (df : DelayFile) (d : Nat) (cap : Nat → Nat) : WCfg :=
-  ⟨sdfDelay pinLine icLine df d, cap⟩
+/-- `(df.iopaths(c, tlib) + df.interconnects(c, tlib))[d]` as the delay table of a WaveSim run, in thousandths.
+PARTIAL as `Sdf.interconnects` is: `none` exactly when `interconnects icLine df = none`, i.e. when the file has no block
+without INSTANCE name and `df.interconnects(c, tlib)` raises `TypeError` — the sum is never formed, no simulator is built.
+(`iopaths` is total in the model; the raising inputs of both loops — unknown cell / pin, a name with two `/`, entries with
+0 or ≥ 3 value lists — are outside the tables' / guards' domain, see Model/Sdf.lean.) -/
+def sdfDelay (pinLine : PinTable) (icLine : IcTable) (df : DelayFile) (d : Nat) : Option (Nat → Bool → Bool → Int) :=
+  (interconnects icLine df).map fun ic => sumDelay pinLine df ic d
+
+/-- the WaveSim configuration of a run with SDF delays: data set `d`, capacities `cap` (`c_caps`); `none` as `sdfDelay` -/
+def sdfCfg (pinLine : PinTable) (icLine : IcTable) (df : DelayFile) (d : Nat) (cap : Nat → Nat) : Option WCfg :=
+  (sdfDelay pinLine icLine df d).map fun del => ⟨del, cap⟩
 
 /-- every number of the file is ≥ 0 (empty fields read 0) -/
 def rawNonneg (B : List RawCell) : Bool :=
@@ -78,8 +86,9 @@ def rawOfText (text : String) : Option (List RawCell) := (KV.SdfText.parseSdf te
 /-- `sdf.parse(text)` (repaired `start`: every block kept) -/
 def fileOfText (text : String) : Option DelayFile := (rawOfText text).map (parse .merge)
 
-/-- `(sdf.parse(text).iopaths(c, tlib) + sdf.parse(text).interconnects(c, tlib))[d]` -/
+/-- `(sdf.parse(text).iopaths(c, tlib) + sdf.parse(text).interconnects(c, tlib))[d]`; `none`: `sdf.parse` does not deliver a
+block list (see `rawOfText`) or `interconnects` raises (`sdfDelay = none`) -/
 def textDelay (pinLine : PinTable) (icLine : IcTable) (text : String) (d : Nat) : Option (Nat → Bool → Bool → Int) :=
-  (fileOfText text).map fun df => sdfDelay pinLine icLine df d
+  (fileOfText text).bind fun df => sdfDelay pinLine icLine df d
 
 end KV.SdfWave
